@@ -263,7 +263,7 @@ pub fn run_case(w: &mut dyn Write, r: &mut Rng, ci: usize, cname: &str, cfg: &Ci
     n
 }
 
-/// Fixed minimal case for the replay of the running-sum start finding.
+/// Fixed minimal case: the running-sum start defect fixed in repo commit bfbd0f1 (regression test; must be rejected).
 pub fn replay_case(w: &mut dyn Write, cname: &str, cfg: &CircuitConfig) -> usize {
     let p = Program { tables: vec![vec![(1, 10), (2, 20)]], ops: vec![Op::Input, Op::Lookup(0, 0), Op::Public(1)], inputs: vec![2] };
     let circ = match build_circ(&p, cfg) { Ok(c) => c, Err(e) => { writeln!(w, "c08replay {cname} = 1 # build failed {e}").unwrap(); return 1; } };
